@@ -104,7 +104,19 @@ fn profile_built() -> &'static str {
 fn main() {
     util::install_panic_hook();
     let args: Vec<String> = std::env::args().collect();
-    let code = match args.get(1).map(|s| s.as_str()) {
+    let code = match util::catch(|| dispatch(&args)) {
+        Ok(c) => c,
+        Err(p) => {
+            // a panic outside the guarded library calls is a defect of the harness, never a verdict
+            println!("HARNESS-ERROR: panic in the harness: {}", p);
+            2
+        }
+    };
+    std::process::exit(code);
+}
+
+fn dispatch(args: &[String]) -> i32 {
+    match args.get(1).map(|s| s.as_str()) {
         Some("run") => cmd_run(&args[2..]),
         Some("replay") => cmd_replay(&args[2..]),
         Some("digest") => cmd_digest(&args[2..]),
@@ -114,8 +126,7 @@ fn main() {
             eprintln!("usage: ixsim run|replay|digest ...");
             2
         }
-    };
-    std::process::exit(code);
+    }
 }
 
 fn cmd_digest(args: &[String]) -> i32 {
@@ -356,6 +367,22 @@ fn cmd_run(args: &[String]) -> i32 {
             }
         }
     }
+    if out.obs_panics > 0 {
+        println!(
+            "note: {} runs ended by a panic outside the guarded library calls (first: {})",
+            out.obs_panics,
+            util::trunc(&out.obs_panic_msg, 300)
+        );
+        if code == 0 {
+            // nothing was found, but part of the exploration did not happen: not a clean result
+            println!("HARNESS-ERROR: runs ended by panics in observation code and no violation was found");
+            code = 2;
+        }
+    }
+    if out.runs_done == 0 && out.hang.is_none() {
+        println!("HARNESS-ERROR: no run was executed");
+        code = 2;
+    }
     write_evidence_part_opt(args, &o, &out, nviol);
     println!(
         "ixsim: {} runs, {} steps, {} distinct (state,op,rel,outcome) tuples, {} truncated-foreign, {:.1}s",
@@ -397,6 +424,7 @@ fn write_evidence_part(path: &str, o: &BatchOpts, out: &run::BatchOut, nviol: u3
         "ops_skipped": out.stats.skipped,
         "runs_per_hour": (out.runs_done as f64 / wall * 3600.0) as u64,
         "runs_truncated_foreign": out.truncated_foreign,
+        "runs_ended_by_observation_panic": out.obs_panics,
         "fault_kinds_fired": faults,
         "probes": probes,
         "op_rel_outcome": ops,
